@@ -16,6 +16,8 @@ fn symtab(alpha: &str) -> Vec<&'static str> {
     match alpha {
         // multi-byte letters and grapheme clusters (use with graphemes = true)
         "cluster" => vec!["ä", "e\u{0301}", "🇩🇪", "字", "q", "r", "ß", "o\u{0308}", "😀", "w"],
+        // pure ASCII with CR LF as one character (use with graphemes = true): byte-wise fast paths
+        "crlf" => vec!["a", "\r\n", "c", "b", "x", "y", "z", "u", "v", "w"],
         _ => vec!["a", "b", "c", "d", "x", "y", "z", "u", "v", "w"],
     }
 }
@@ -51,7 +53,12 @@ fn exec_spell(case: &Value) -> Vec<Value> {
     use text_utils::data::preprocessing::{preprocessing, Part, PreprocessingFnConfig, SpellingCorruptionMode};
     use text_utils::data::{TextDataInfo, TrainData};
     let tab = symtab(get_str(case, "alpha"));
-    let word = word_of(&tab, &case["w"]);
+    // `ws`: several words (then without full deletion, so that every word is still there afterwards); else one word `w`
+    let words: Vec<String> = match case.get("ws").and_then(|x| x.as_array()) {
+        Some(a) => a.iter().map(|w| word_of(&tab, w)).collect(),
+        None => vec![word_of(&tab, &case["w"])],
+    };
+    let word = words.join(" ");
     let pone = get_bool(case, "pone");
     let full = get_bool(case, "full");
     let seed = case.get("seed").and_then(|x| x.as_u64()).unwrap_or(0);
@@ -65,7 +72,12 @@ fn exec_spell(case: &Value) -> Vec<Value> {
         Ok(Err(e)) => (format!("err:spelling:{e}"), String::new()),
         Err(m) => (format!("panic:spelling:{m}"), String::new()),
     };
-    vec![json!({"st": st, "kind": "spell", "w": ids_of(&tab, &word, true), "out": ids_of(&tab, &out, true), "pone": pone, "full": full,
+    if words.len() > 1 {
+        let outs: Vec<Vec<i64>> = out.split(' ').map(|w| ids_of(&tab, w, true)).collect();
+        return vec![json!({"st": st, "kind": "spell", "ws": words.iter().map(|w| ids_of(&tab, w, true)).collect::<Vec<_>>(), "outs": outs, "pone": pone, "full": full,
+                           "w": [], "out": [], "tb": {"ins": [], "rep": []}, "seed": seed, "case": case})];
+    }
+    vec![json!({"st": st, "kind": "spell", "w": ids_of(&tab, &word, true), "out": ids_of(&tab, &out, true), "pone": pone, "full": full, "ws": [], "outs": [],
                 "tb": {"ins": [], "rep": []}, "seed": seed, "case": case})]
 }
 
@@ -158,6 +170,11 @@ pub fn gen(seed: u64, n: usize) -> Vec<Value> {
     let mut rng = ChaCha8Rng::seed_from_u64(seed);
     (0..n)
         .map(|i| {
+            if i % 15 == 9 {
+                // several words in one text: every word starts its chain with nothing protected
+                let ws: Vec<Vec<u64>> = (0..rng.random_range(2..=4)).map(|_| (0..rng.random_range(1..=4)).map(|_| rng.random_range(1..=3)).collect()).collect();
+                return json!({"kind": "spell", "ws": ws, "alpha": "ascii", "del": [1, 2, 3], "pone": rng.random_bool(0.5), "full": false, "seed": rng.random::<u32>()});
+            }
             if i % 5 == 4 {
                 // the library's own chain: a word of 1-6 letters with repeats
                 let w: Vec<u64> = (0..rng.random_range(1..=6)).map(|_| rng.random_range(1..=3)).collect();
